@@ -295,8 +295,12 @@ fn build_fn_edits(
         }
         let _ = write!(out, "\n    {kw}");
         for c in list {
-            let _ = write!(out, "\n        /*@OBL {} {}*/ {},", c.id, kw, c.text.trim().trim_end_matches(','));
-            let _ = write!(out, " /*@END*/");
+            if let Some(u) = &it.contract_of {
+                let _ = write!(out, "\n        /*@ASSUMED {} {} (proved in unit {})*/ {},", c.id, kw, u, c.text.trim().trim_end_matches(','));
+            } else {
+                let _ = write!(out, "\n        /*@OBL {} {}*/ {},", c.id, kw, c.text.trim().trim_end_matches(','));
+                let _ = write!(out, " /*@END*/");
+            }
         }
     };
     group("requires", &it.requires, &mut clauses);
@@ -308,15 +312,24 @@ fn build_fn_edits(
         clauses.push('\n');
         edits.push(Edit { range: body_open..body_open, text: clauses, prio: 0 });
     }
-    // body: rewrites, loop annotations, proof insertions
-    rw.loops = it.loops.clone();
-    rw.proofs = it.proofs.clone();
-    let mut body_edits = rw.rewrite_fn_body(block);
-    edits.append(&mut body_edits);
-    rw.check_all_used();
+    if it.contract_of.is_some() {
+        // callee known by contract only: no body
+        let br = block.span().byte_range();
+        edits.push(Edit { range: br, text: "{ unimplemented!() }".to_string(), prio: 0 });
+    } else {
+        // body: rewrites, loop annotations, proof insertions
+        rw.loops = it.loops.clone();
+        rw.proofs = it.proofs.clone();
+        let mut body_edits = rw.rewrite_fn_body(block);
+        edits.append(&mut body_edits);
+        rw.check_all_used();
+    }
     let mut text = apply_edits(src, start..item_end, edits);
     for a in &it.attrs {
         text = format!("{a}\n{text}");
+    }
+    if it.contract_of.is_some() {
+        text = format!("#[verifier::external_body]\n{text}");
     }
     // canary / text substitutions are applied by the driver on the generated file.
     Emitted {
@@ -573,7 +586,27 @@ fn main() {
         out.push_str("verus! {\n");
     }
     let mut items_json = vec![];
+    let mut resolved: Vec<ItemSpec> = vec![];
     for it in &unit.items {
+        let mut it = it.clone();
+        if let Some(u) = it.contract_of.clone() {
+            let p = format!("{verif_root}/units/{u}/unit.ctr");
+            let t = std::fs::read_to_string(&p).unwrap_or_else(|e| die("malformed-unit", &format!("{p}: {e}")));
+            let other = parse_unit(&t);
+            let o = match other.items.iter().find(|o| o.path == it.path && o.contract_of.is_none()) {
+                Some(o) => o,
+                None => die("malformed-unit", &format!("@contract_of {u}: unit {u} has no contract for `{}`", it.path)),
+            };
+            it.sig = o.sig.clone();
+            it.ret = o.ret.clone();
+            it.requires = o.requires.clone();
+            it.ensures = o.ensures.clone();
+            it.private = o.private;
+            it.property = o.property.clone();
+        }
+        resolved.push(it);
+    }
+    for it in &resolved {
         let module = it.path.split("::").next().unwrap().to_string();
         if !files.contains_key(&module) {
             files.insert(module.clone(), SrcFile::load(&format!("{src_dir}/{module}.rs")));
@@ -597,6 +630,7 @@ fn main() {
             "rules_applied": e.rule_log, "dropped": e.dropped,
             "termination_unverified": it.attrs.iter().any(|a| a.contains("exec_allows_no_decreases_clause")),
             "property": it.property,
+            "contract_of": it.contract_of,
         }));
     }
     if !plain {
